@@ -41,8 +41,39 @@ def worker_init(tier):
     warnings.simplefilter('ignore')
 
 
+NC_CALLS = [{}, {'layout': 'copy_all'}, {'segment': True}, {'parse_qq': True, 'clean_qq': True}, {'sec_within': True}]
+
+
 def units(tier):
-    return soup.plss_units(tier)
+    return soup.plss_units(tier) + [{'k': 'noncommit', 'seed': n} for n in range(16)]
+
+
+def judge_nc(acc, seed_n):
+    """The tracts *returned* by a non-committing parse (the object keeps its own) obey the same invariants."""
+    layout, si, text = soup.seeds()[seed_n]
+    for src in SOURCES:
+        for created in ('parsed', 'wait_to_parse'):
+            for kw in NC_CALLS:
+                key = f"nc|{created}|{src!r}|{sorted(kw.items())}|{text}"
+                case = {'k': 'noncommit', 'seed': seed_n, 'text': text, 'source': src, 'created': created, 'kw': kw}
+                try:
+                    d = _p.PLSSDesc(text, source=src, wait_to_parse=(created == 'wait_to_parse'))
+                    got = list(d.parse(commit=False, **kw))
+                except Exception:  # noqa
+                    acc.case(key, 'EXC', nontrivial=False)
+                    acc.extra['exceptions_left_to_C03'] += 1
+                    continue
+                acc.case(key, [t.trs for t in got])
+                acc.states += 1
+                acc.transitions += 1
+                for i, t in enumerate(got):
+                    bad = check_tract(t, i, text, src)
+                    if bad:
+                        acc.violation(bad[0], f"C09:noncommit:{bad[0]}:{created}:{sorted(kw.items())}", case, got=bad[1],
+                                      note=f"tract {i} of the list returned by parse(commit=False, ...)")
+                        break
+                else:
+                    acc.guard('noncommit_checked')
 
 
 def space(tier):
@@ -114,6 +145,9 @@ def judge(acc, text, mode):
 
 def run_unit(unit, tier):
     acc = Acc()
+    if unit.get('k') == 'noncommit':
+        judge_nc(acc, unit['seed'])
+        return acc.result()
     for text, mode in soup.unit_cases(unit, tier):
         judge(acc, text, mode)
     return acc.result()
@@ -121,6 +155,9 @@ def run_unit(unit, tier):
 
 def replay(case):
     acc = Acc()
+    if case.get('k') == 'noncommit':
+        judge_nc(acc, case['seed'])
+        return acc.viol
     judge(acc, case['text'], soup.mode_by_name(case['mode']))
     return acc.viol
 
@@ -128,7 +165,7 @@ def replay(case):
 def guards(info):
     g = info['guards']
     out = []
-    for name in ('three_or_more_tracts', 'error_placeholder_seen', 'fully_valid_seen'):
+    for name in ('three_or_more_tracts', 'error_placeholder_seen', 'fully_valid_seen', 'noncommit_checked'):
         if not g.get(name):
             out.append(f"never observed: {name}")
     return out
